@@ -277,6 +277,41 @@ func runCodec(ctx *core.Ctx, cases []*ProgCase, langs []string) []string {
 	return out
 }
 
+// optsFor lists the non-default options that can bear on the kind of field named in a difference
+// description (byte order for numbers, the string prefix type for strings, the array prefix type for
+// count prefixes, the pad options for fixed strings). Options that cannot matter for that field are
+// left out of the signature, so that one defect has one signature under every irrelevant option.
+func optsFor(p *dsl.Program, desc string) string {
+	rel := map[string]bool{}
+	d := strings.ToLower(desc)
+	has := func(w string) bool { return strings.Contains(d, w) }
+	switch {
+	case has("fixstr"):
+		rel["FixedStringPadFromLeft"], rel["FixedStringPadChar"] = true, true
+	case has("dynstr") || has("length-prefix"):
+		rel["StringPrefixLenType"], rel["LittleEndian"] = true, true
+	case has("int") || has("float") || has("lenof") || has("checksum") || has("char"):
+		rel["LittleEndian"] = true
+	default:
+		for _, n := range dsl.OptionNames {
+			rel[n] = true
+		}
+	}
+	if has("count-prefix") || has("element count") || has("repeated") {
+		rel["ArrayPrefixLenType"], rel["LittleEndian"] = true, true
+	}
+	var out []string
+	for _, n := range dsl.OptionNames {
+		if v, ok := p.OptValue(n); ok && rel[n] && v != dsl.OptionValues[n][0] {
+			out = append(out, n+"="+v)
+		}
+	}
+	if len(out) == 0 {
+		return "no relevant option set"
+	}
+	return strings.Join(out, ",")
+}
+
 // wallClockAnswer reports whether a driver's ERR answer is about its per-command wall-clock limit
 // (a loaded machine, or a non-terminating emitted routine): unobservable, never a verdict.
 func wallClockAnswer(errText string) bool {
